@@ -44,9 +44,69 @@ PROPS.update({
     },
 })
 
+FILE_RULE = "writer configurations: codec in all six (level 0..u32::MAX, zstd <= 19), block size through the public clamped setter {0,1,1023,1024,1025,2048,8192,...} and 16..256 through the unclamped hook, index interval {default,1,2,3,8,random<=64}, index levels {0,1,2,3,4,7,254,255} (+ sweep), 0..400 entries with keys over a 4-symbol alphabet incl. the empty key, 0xFF runs, boundary lengths 127/128/16383/16384, values from empty to larger than a block; non-trivial = file with more blocks than index levels + 2, distinct by file bytes"
+PROPS.update({
+    "C01": {
+        "prop_file": "props/C01.v",
+        "scenarios": [{"name": "file-c01", "timeout": 1200}],
+        "rule": FILE_RULE,
+        "trusted": ["codec crates (snap, flate2, lz4_flex, zstd): the model's compress/decompress are the table of (uncompressed, compressed) block pairs the codec produced in this run, each checked to decompress back"],
+        "assumptions": [],
+        "not_proved": ["C01_roundtrip for whole files (w_run cfg es = Done f /\\ scans of f = es, rev es): the block level (C01_block_roundtrip) and the trailer (C01_open_reports_trailer) are proved; the multi-level tree invariant W of the writer and the cursor refinement R are proved only on the abstract models of design-notes/{WriterTree,Chain,CeilIndex}_probe.v and are tied to the executable model by the correspondence (byte-exact file comparison, scans through model and implementation) rather than by a Coq refinement proof"],
+    },
+    "C09": {
+        "prop_file": "props/C09.v",
+        "scenarios": [{"name": "file-c09", "timeout": 1200}],
+        "rule": FILE_RULE + "; each file is also read by the frozen grenad 0.4.7 reader, and the same inputs are written by the 0.4.7 writer (codecs both versions support) and read by the current reader and the model",
+        "trusted": ["grenad 0.4.7 from the offline cargo registry as the frozen peer", "codec crates via the per-run compression table"],
+        "assumptions": [],
+        "not_proved": ["C09_format for whole files (the index tree: every index level maps the last key of each child to the child's offset; frames tile the body): proved for each block (C09_block_layout, C09_block_decodes) and for the trailer (C09_trailer_layout); the tree shape is proved on the abstract writer of design-notes/WriterTree_probe.v and checked on every generated file by the extracted independent decoder Format.decode_file"],
+    },
+    "C15": {
+        "prop_file": "props/C15.v",
+        "scenarios": [{"name": "file-c15", "timeout": 1200}],
+        "rule": FILE_RULE + "; plus block sizes around the clamp {0,1,1023,1024,1025,2048} with entries sized to land the estimate on B-1, B, B+1",
+        "trusted": [],
+        "assumptions": [],
+        "not_proved": ["C15_cut for whole writer runs (every data block and every index block of level >= 2 is emitted exactly when its estimate reaches B): the estimate is proved exact (C15_size_exact) and its growth per insert bounded (C15_growth); the invariant 'pending blocks stay below B' over Writer::insert's cascade is checked per emitted block of every generated file (predicates Format.size_without_last / block_size_of on the implementation's own blocks) but not yet proved in Coq"],
+    },
+    "C18": {
+        "prop_file": "props/C18.v",
+        "scenarios": [{"name": "file-c18", "timeout": 1200}],
+        "rule": "mostly sorted insert sequences with one defect (duplicate next to its predecessor, adjacent inversion, jump back to the first key, repeated earlier entry, empty key in the middle) or none, under the writer configurations of C01 incl. tiny unclamped blocks and up to 4 index levels; non-trivial = the writer panicked or the file has more blocks than levels + 2",
+        "trusted": [],
+        "assumptions": [],
+        "not_proved": ["lifting of C18_block_sorted_or_panic to whole writer runs (every block writer inside Writer, data and index, is only ever fed through bw_insert and reset): checked on every emitted block of every generated file, not yet proved in Coq"],
+    },
+})
+
 NOT_APPLICABLE = {}
 
 MANIFEST_TEXT = {
+    "C01": {
+        "text": "Proved for all inputs: block-level round trip (C01_block_roundtrip: insert, finish, parse, decode returns exactly the entries in order, for any strictly ascending entries of any lengths) and the trailer round trip (C01_open_reports_trailer). The whole-file composition is tied to the code by a byte-exact executable model: every run compares the model writer's file with the real writer's byte for byte for all six codecs, and full forward/backward scans through implementation, model reader and specification.",
+        "design_ref": "DESIGN.md §5 C01, §4 (W, R)",
+        "note": "Partial proof (see evidence.not_proved): whole-file theorem not yet composed. Trusted: kernel; transcription of writer.rs/block*.rs/reader_cursor.rs validated by correspondence; codec crates via per-run compression table; extraction, driver, harness. Axioms: none.",
+        "technique": "Rocq proof (induction over inserts: block writer invariant, parse/decode inversion) + byte-exact model/implementation differential execution",
+    },
+    "C09": {
+        "text": "Proved: the layout of every finished block (varint-framed entries, u64 BE offset table with first 0 and one slot per interval, u32 BE count: C09_block_layout), that an independent decoder recovers its entries (C09_block_decodes) and the 22-byte LE trailer layout with magic 0x6723D4C4 (C09_trailer_layout, C09_constants over re-extracted constants). Every run: model file = implementation file byte for byte, the extracted independent tree decoder recovers the inputs, the frozen grenad 0.4.7 reader recovers them, and files written by the 0.4.7 writer are read back by the current reader and the model.",
+        "design_ref": "DESIGN.md §5 C09",
+        "note": "Partial proof (tree-level clause validated, not proved). Trusted: kernel; grenad 0.4.7 as frozen peer; codec crates; extraction, driver, harness. Axioms: none.",
+        "technique": "Rocq proof (format lemmas per block and trailer) + independent extracted decoder + 0.4.7 interop matrix by differential execution",
+    },
+    "C15": {
+        "text": "Proved: the size estimate is the exact uncompressed size of the finished block for every reachable block-writer state (C15_size_exact), one insert grows it by the framed entry plus at most one 8-byte slot (C15_growth), the clamp is max(1024, s) (C15_constants). Every run evaluates the two cut clauses (size without last entry < B; every non-last block of its level >= B) on every emitted data block and index block of level >= 2 of every generated file, and compares emitted bytes with the model.",
+        "design_ref": "DESIGN.md §5 C15",
+        "note": "Partial proof (cascade invariant validated, not proved). Trusted: kernel; transcription validated by correspondence; extraction, driver, harness. Axioms: none.",
+        "technique": "Rocq proof (size exactness, growth bound) + per-block cut predicates evaluated on implementation output + byte-exact model comparison",
+    },
+    "C18": {
+        "text": "Proved for every insert sequence: a block writer either panics or holds exactly the inserted entries with strictly ascending keys (C18_block_sorted_or_panic), panicking exactly at the first key not above the last key (C18_panic_point); decoded finished blocks are sorted (C18_finished_block_sorted). Every run: mostly-sorted sequences with planted defects through implementation and model (same panic index or byte-identical file) and sortedness of every emitted block.",
+        "design_ref": "DESIGN.md §5 C18",
+        "note": "Partial proof (lifting to all block writers inside Writer validated, not proved). Trusted: kernel; transcription validated by correspondence; extraction, driver, harness. Axioms: none.",
+        "technique": "Rocq proof (invariant by induction over inserts, dichotomy) + model/implementation differential execution on defective insert sequences",
+    },
     "C13": {
         "text": "Theorems C13_no_panic and C13_open_iff prove for EVERY byte string that the transcribed Metadata::read_from never panics and succeeds exactly when the string ends in a complete V1/V2 trailer with a known codec id (literals of the property text, tied to the code's constants by C13_constants over the re-extracted Consts.v); C13_truncations instantiates it at every crash point. The transcription is validated every run against Reader::new on all truncations/corruptions/short strings generated.",
         "design_ref": "DESIGN.md §5 C13",
